@@ -7,6 +7,7 @@ case:  [X] <backend> <ttl0,ttl1,…> <event>…        backend ∈ memory redis 
   reg:<n>:<tid>:<map>:<sec>:<src>:<sc>:<tc>:<host>:<port>     strings hex (UTF-8), `-` = empty; ints decimal
   open:<n>:<tid>:<map>:<sec>:-:<sc>:<tc>:<host>:<port>        startSourceBridge on node n
   look:<n>:<tid>  rem:<n>:<tid>  end:<n>:<tid>  adv:<ms>  advw:<ms>  advs:<ms>  rega:<n>:<nid>:<addr>  geta:<n>:<nid>
+  fwd:<n>:<tid>     a target connection for <tid> arrives on node n: lookup, then CreateDedicatedConnection (obs fwd:<src>:<addr> | enoaddr)
 obs:   one token per event:
   ok eparam nf exp eint estore edata exists skip addr:<hex> found:<tid>:<map>:<sec>:<src>:<sc>:<tc>:<host>:<port>:<ttl ms>
 A leading `X` marks an excluded-point case (a string that is not valid UTF-8, …): it is run on the
@@ -48,6 +49,7 @@ def parseEv (tok : String) : Option Ev :=
   | ["advs", d] => do pure (.advStore (← d.toNat?))
   | ["rega", n, nid, a] => do pure (.regAddr (← n.toNat?) (← strOfHex nid) (← strOfHex a))
   | ["geta", n, nid] => do pure (.getAddr (← n.toNat?) (← strOfHex nid))
+  | ["fwd", n, tid] => do pure (.fwd (← n.toNat?) (← strOfHex tid))
   | _ => none
 
 def parseCase : List String → Option (Cfg × List Ev)
@@ -69,6 +71,8 @@ def resStr : Res → String
   | .errData => "edata"
   | .exists_ => "exists"
   | .skip => "skip"
+  | .errNoAddr => "enoaddr"
+  | .forwarded src a => "fwd:" ++ hexOfStr src ++ ":" ++ hexOfStr a
   | .addr s => "addr:" ++ hexOfStr s
   | .found r =>
     ":".intercalate ["found", hexOfStr r.tunnelID, hexOfStr r.mappingID, hexOfStr r.secretKey, hexOfStr r.sourceNodeID,
@@ -87,6 +91,8 @@ def parseRes (tok : String) : Option Res :=
   | ["exists"] => some .exists_
   | ["skip"] => some .skip
   | ["addr", a] => do pure (.addr (← strOfHex a))
+  | ["enoaddr"] => some .errNoAddr
+  | ["fwd", src, a] => do pure (.forwarded (← strOfHex src) (← strOfHex a))
   | ["found", tid, mp, sec, src, sc, tc, host, port, ttl] => do
     let r ← parseRec [tid, mp, sec, src, sc, tc, host, port]
     pure (.found { r with expiresAt := ← ttl.toNat? })
